@@ -261,6 +261,11 @@ func GenSyscallGroup(r *mon.Rand, o EventOpts) Group {
 		mon.Shuffle(r, rest)
 	}
 	g := Group{}
+	if fr := r.Fork(92); userFirst == "" && o.Mode < 0 && fr.Chance(1, 12) {
+		// the event starts with a record that carries a rule key of its own (auditctl adding a rule while its
+		// own sendto is audited): CONFIG_CHANGE ... key="..." first, then the SYSCALL record with another key
+		userFirst = fmt.Sprintf("type=CONFIG_CHANGE %s auid=%s ses=%s op=add_rule key=\"%s\" list=4 res=1", hdr, u.num(), u.num(), u.word("cfgkey"))
+	}
 	if userFirst != "" {
 		g.Lines = append(g.Lines, userFirst, sys)
 		g.Lines = append(g.Lines, rest...)
